@@ -26,7 +26,34 @@ def exc_sig(e):
     return type(e).__name__ + "@" + (tb[-1].name if tb else "?")
 
 
+def enc_dict(d):
+    """real to_dict result -> the dictionary line of Scfg/Codec.lean (keys in insertion order)"""
+    out = []
+    for key, b in d["blocks"].items():
+        t = b["type"]
+        tbl = b.get("branch_value_table") or {}
+        asg = b.get("variable_assignment") or {}
+        pay = [b["begin"], b["end"]] if "begin" in b else []
+        out.append("|".join([
+            export._nm(key), t, b.get("kind") or ("" if t != "region" else "none"), ",".join(b.get("contains") or []),
+            b.get("header") or "", b.get("exiting") or "", b.get("parent_region") or "",
+            ",".join(f"{int(k)}={v}" for k, v in tbl.items()), b.get("variable") or "",
+            ",".join(f"{k}={int(v)}" for k, v in asg.items()), ",".join(str(x) for x in pay),
+            ",".join(d["edges"][key]), ",".join((d["backedges"] or {}).get(key) or [])]))
+    return ";".join(out) if out else "-"
+
+
+def model_lines(scfg, d, s2, tags=None):
+    """driver requests + expected replies tying Scfg/Model/IO.lean to the real writer / reader"""
+    t1, l1 = export.export(scfg, tags)
+    t2, l2 = export.export(s2, tags)
+    dl = enc_dict(d)
+    return [(f"H {t1} {l1}", None), (f"IO to_dict {t1}", "ok " + dl),
+            (f"IO from_dict {t2} {dl}", f"ok {t2} {l2}")]
+
+
 def roundtrip(scfg, tags=None):
+    roundtrip.model = []
     """returns (reloaded scfg | None, [failure strings], [driver lines], [what each SPEC line checks])"""
     fails, lines, what = [], [], []
     try:
@@ -45,6 +72,10 @@ def roundtrip(scfg, tags=None):
     l2 = l2.replace(t2 + "|", t1 + "|") if t2 != t1 else l2
     lines += [f"G {t1} {l1}", f"H {t1} {_retop(l2, t2, t1)}", "SPEC same_hier"]
     what.append("dict")
+    try:
+        roundtrip.model = model_lines(scfg, d, s2, tags)
+    except Exception as e:  # noqa: BLE001
+        roundtrip.model = [("ECHO", "model-lines-not-encodable:" + type(e).__name__)]
     try:
         d2 = s2.to_dict()
         if d2 != d:
@@ -94,6 +125,7 @@ def gfun(a, b):
 def _work(chunk):
     drv = common.Driver()
     lines, meta, fails = [], [], []
+    mlines, mmeta = [], []
     n = 0
     for tag, succ in chunk:
         if tag == "ast":
@@ -120,6 +152,9 @@ def _work(chunk):
             for k, w in enumerate(what):
                 lines += ln[3 * k:3 * k + 3]
                 meta += [None, None, (succ, stage, w)]
+            for req, exp in roundtrip.model:
+                mlines.append(req)
+                mmeta.append((succ, stage, exp))
             if s2 is None:
                 break
             scfg = s2          # continue on the re-read graph
@@ -127,7 +162,16 @@ def _work(chunk):
     for m, r in zip(meta, rep):
         if m is not None and r != "1":
             fails.append((m[0], m[1], m[2] + "-reread-graph-differs"))
-    return n, fails
+    mism = []
+    nmodel = 0
+    if mlines:
+        for m, r in zip(mmeta, drv.run(mlines)):
+            if m[2] is None:
+                continue
+            nmodel += 1
+            if r != m[2]:
+                mism.append((m[0], m[1], m[2][:300], r[:300]))
+    return n, fails, nmodel, mism
 
 
 def run(ctx):
@@ -143,6 +187,17 @@ def run(ctx):
         parts = pool.map(_work, chunks)
     n = sum(p[0] for p in parts)
     fails = [f for p in parts for f in p[1]]
+    nmodel = sum(p[2] for p in parts)
+    mism = [m for p in parts for m in p[3]]
+    broken = []
+    if mism:
+        m0 = min(mism, key=lambda m: (len(m[0]) if m[0] else 99, str(m[0])))
+        path = common.write_replay("C15", {"property": "C15", "kind": "correspondence-broken",
+                                           "what": "Lean model of to_dict / from_dict (Scfg/Model/IO.lean) disagrees with the code",
+                                           "input_succ": [list(x) for x in m0[0]] if m0[0] else "bytecode:gfun", "stage": m0[1],
+                                           "expected_from_code": m0[2], "model_reply": m0[3], "count": len(mism)})
+        broken.append({"signature": {"kind": "correspondence"}, "replay": path, "nfi": True,
+                       "what": f"IO model mismatch on {len(mism)} comparisons"})
     by = {}
     for succ, stage, why in fails:
         by.setdefault((stage, why), []).append(succ)
@@ -158,15 +213,16 @@ def run(ctx):
            "evaluations": n, "distinct_nontrivial": len(inputs),
            "rule": "closed CFGs as for C01 (≤14 nodes) + a bytecode function; at every stage prefix: to_dict→from_dict, to_yaml→from_yaml, "
                    "write-read-write-read; the pipeline continues on the re-read graph",
-           "stage_graphs_round_tripped": n, "failures_by_kind": {f"{k[0]}:{k[1]}": len(v) for k, v in by.items()}}
-    return {"level": LEVEL, "coverage": cov, "violations": violations,
+           "stage_graphs_round_tripped": n, "model_comparisons": nmodel, "model_mismatches": len(mism),
+           "traces_validated_against_impl": nmodel, "failures_by_kind": {f"{k[0]}:{k[1]}": len(v) for k, v in by.items()}}
+    return {"level": LEVEL, "coverage": cov, "violations": violations, "broken": broken,
             "assumptions": ["exporter faithful; PyYAML trusted; dict insertion order of graphs is not part of the compared content"]}
 
 
 def replay(path):
     d = json.load(open(path if os.path.isabs(path) else os.path.join(common.VERIF, path)))
     succ = d["input_succ"]
-    n, fails = _work([("replay", tuple(tuple(s) for s in succ) if isinstance(succ, list) else None)])
+    n, fails, _, _ = _work([("replay", tuple(tuple(s) for s in succ) if isinstance(succ, list) else None)])
     print(fails[:5])
     if fails:
         print(f"VIOLATION property=C15 replay={path}")
